@@ -14,7 +14,7 @@ def run_history(args):
     rng = random.Random(seed)
     # `live`: the history is only ever run on live objects (never fed to a collection as texts), so it
     # may also use odd message IDs, add the same message *object* again and call msg.merge(ro) directly
-    g = gen_hist.Gen(rng, odd_message_ids=live, corner_durations=live and not views)
+    g = gen_hist.Gen(rng, odd_message_ids=live, corner_durations=not views)        # (accessor views need usable timing values)
     n = rng.randrange(1, max_steps + 1)
     ro_tree = g.ro(rng.randrange(0, 5))
     ro_text = TJ.to_text(ro_tree)
@@ -168,7 +168,9 @@ def _reuse_plans():
     def BODY():
         # every kind of paragraph a body can hold: empty, absent text, blank, bracketed, plain, non-ASCII blanks
         return [B.p(None), B.item('n1'), B.p('carried text'), B.p(''), B.item('n2'), B.p('   '), B.p('(a note)'), B.item('n3'),
-                B.p('\u00a0\u3000'), E('p', E('b', text='bold'), text=None), B.p('Line one' + gen_hist.CR + 'line two'), B.p(' last ')]
+                B.p('\u00a0\u3000'), E('p', E('b', text='bold'), text=None), B.p('Line one' + gen_hist.CR + 'line two'), B.p(' last '),
+                # the same clip used twice, and two items without an ID: every one of them is an item of the body
+                B.item('n2'), B.item(B.BLANK), B.p('between the blanks'), B.item(B.BLANK)]
 
     def n_story():
         return B.story('N', BODY(), md=B.timing_md(duration='10'))
